@@ -37,6 +37,8 @@ func RunHistory(t *rapid.T, prof *Profile, mons ...Monitor) {
 			w.Flags["vesting-account"] = true
 		} else if strings.HasPrefix(n, "prefix-ids{") {
 			w.Flags["prefix-ids-genesis"] = true
+		} else if strings.HasPrefix(n, "chain-id=regen-1") || strings.HasPrefix(n, "chain-id=regen-redwood-1") {
+			w.Flags["real-network-chain-id"] = true
 		} else if strings.HasPrefix(n, "legacy-batches{") {
 			w.Flags["legacy-genesis-batches"] = true
 		}
